@@ -198,7 +198,10 @@ def generate(rng, tier):
         # `a` must still be the global
         inputs.append({"kind": "none", "lines": ["(defmacro m999 [] [\"mac\" 999])"]})
         inputs.append({"kind": "value", "lines": ["(hy.eval '[(m999) a 998])"]})
-    return {"inputs": inputs, "eof_mid": rng.random() < 0.1}
+    # swarm over the REPL's own configuration: --spy (the Python translation is printed before each evaluation),
+    # another output function
+    return {"inputs": inputs, "eof_mid": rng.random() < 0.1, "spy": rng.random() < 0.2,
+            "output_fn": rng.choice([None, None, None, "repr", "str"])}
 
 
 # ------------------------------------------------------------------ lockstep driver
@@ -222,6 +225,8 @@ class Lockstep:
         self.hy = _S["hy"]
         self.inputs = desc["inputs"]
         self.eof_mid = desc.get("eof_mid")
+        self.spy = bool(desc.get("spy"))
+        self.output_fn = {"repr": repr, "str": str}.get(desc.get("output_fn"), self.hy.repr)
         self.i = 0          # next input
         self.j = 0          # next line within the input
         self.M = types.ModuleType(modname + "_script")
@@ -298,11 +303,18 @@ class Lockstep:
         else:
             outcome, sout = p["script"]
             exp_out = sout
+            if self.spy:
+                # the translation and the delimiter line come first; they are printed when (and only when) the input compiled
+                d = "-" * 30 + "\n"
+                k = o.find(d)
+                if k >= 0 and (k == 0 or o[k - 1] == "\n"):
+                    self.probes["spy_translations"] = self.probes.get("spy_translations", 0) + 1
+                    o = o[k + len(d):]
             failed = outcome[0] == "exc"
             repr_failed = False
             if not failed and outcome[1] is not None:
                 try:
-                    exp_out += self.hy.repr(outcome[1]) + "\n"
+                    exp_out += self.output_fn(outcome[1]) + "\n"
                 except Exception:
                     repr_failed = True
             if failed:
@@ -428,7 +440,12 @@ def execute(desc):
     drv = Lockstep(desc, modname)
     sys.modules[modname + "_script"] = drv.M
     try:
-        res = R.run_session(_S["hy"], modname, drv)
+        kw = {}
+        if desc.get("spy"):
+            kw["spy"] = True
+        if desc.get("output_fn"):
+            kw["output_fn"] = desc["output_fn"]
+        res = R.run_session(_S["hy"], modname, drv, kw)
     finally:
         sys.modules.pop(modname + "_script", None)
     if res["exit"]:
@@ -449,6 +466,10 @@ def shrink(desc):
     inputs = desc["inputs"]
     if desc.get("eof_mid"):
         yield dict(desc, eof_mid=False)
+    if desc.get("spy"):
+        yield dict(desc, spy=False)
+    if desc.get("output_fn"):
+        yield dict(desc, output_fn=None)
     n = len(inputs)
     size = n // 2
     while size >= 1:
